@@ -99,11 +99,43 @@ theorem C08_exactly_once {s : State} (h : Reachable s) :
     (hperm.map (·.id)).nodup_iff.2 hnd
   exact List.Pairwise.of_map (·.id) (fun a b hab e => hab (by rw [e])) this
 
+/-- **First pass.** An event that is pending and due when a pass starts is, when the pass returns,
+    either delivered by that very pass (its record carries this pass's time) or was cancelled by a
+    response that ran earlier in the pass; by `C08_not_early` no earlier pass delivered it. -/
+theorem C08_first_pass {s s' : State} {e : Ev} (h : Reachable s) (hs : step s .process = some s')
+    (he : e ∈ pending s) (hdue : e.due ≤ (s.h.now : Int)) :
+    (∃ d ∈ s'.h.log, d.ev = e ∧ d.passT = (s.h.now : Int)) ∨ e ∈ s'.h.cancelled := by
+  have h' : Reachable s' := reachable_step (ops := [.process]) h (by simp only [run, Machine.run]; unfold step at hs; rw [hs]; rfl)
+  obtain ⟨hlate, new, hlog, hnew⟩ := C08_not_late h hs
+  have l1 := C08_exactly_once h
+  have l2 := C08_exactly_once h'
+  have hposted : e ∈ s'.h.posted := by
+    have : e ∈ s.h.posted := l1.1.mem_iff.1 (List.mem_append_right _ he)
+    exact (grows_step LQ.impl hs).2 e this
+  have hmem := l2.1.mem_iff.2 hposted
+  simp only [List.mem_append] at hmem
+  rcases hmem with (hd | hc) | hp
+  · left
+    -- delivered in `s'` but pending, hence not delivered, in `s`: the record is one of the new ones
+    have hnd : e ∉ delivered s := by
+      have := l1.2.2
+      rw [List.nodup_append] at this
+      intro hd0
+      exact this.2.2 e (List.mem_append_left _ hd0) e he rfl
+    simp only [delivered, List.mem_reverse, List.mem_map] at hd hnd
+    obtain ⟨d, hdl, hde⟩ := hd
+    rw [hlog] at hdl
+    rcases List.mem_append.1 hdl with h1 | h1
+    · exact ⟨d, by rw [hlog]; exact List.mem_append_left _ h1, hde, hnew d h1⟩
+    · exact absurd ⟨d, h1, hde⟩ hnd
+  · exact Or.inr hc
+  · have := hlate e hp; omega
+
 /-- **Cancelled means never delivered.** Once an event is in the cancelled ledger it stays there,
     and in no later state is it delivered or pending again. -/
 theorem C08_cancelled_never_delivered {s s' : State} {ops : List Op} {e : Ev} (h : Reachable s)
     (he : e ∈ s.h.cancelled) (hr : run s ops = some s') : e ∉ delivered s' ∧ e ∉ pending s' := by
-  have he' : e ∈ s'.h.cancelled := cancelled_run LQ.impl ops hr e he
+  have he' : e ∈ s'.h.cancelled := (grows_run LQ.impl ops hr).1 e he
   have hnd := (C08_exactly_once (reachable_step h hr)).2.2
   rw [List.nodup_append] at hnd
   obtain ⟨h1, _, h3⟩ := hnd
